@@ -184,7 +184,7 @@ func ParseStreamCallback variant walk
   // the frame is the callback's: besides objects the parse allocates itself only the reporters' state changes
   modifies captured(callback, t), captured(callback, ok), captured(callback, ln)
   modifies heap(shared.TreeNode), maps(string, *shared.TreeNode), heap(balance.balanceSingleReporter), arrays(float64), maps(string, shared.AccValues), maps(string, bool), maps(string, float64)
-  modifies ghost(cbLen, cbErr, cbNode, cbStop, cbRet, cbLineNo, cbLine, cbHeader, cbElems, cbNElems, scRd, scPos, privLo, evOf, accKey, accP, accN, accH, bufSticky, sinkFailed, sinkPend, prLen, prSink, prArg, prArgs, tnodes, tdepth, tmax, tmapOf)
+  modifies ghost(cbLen, cbErr, cbNode, cbStop, cbRet, cbLineNo, cbLine, cbHeader, cbElems, cbNElems, scRd, scPos, privLo, evOf, accKey, accP, accN, accH, bufSticky, sinkFailed, sinkPend, prLen, prSink, prArg, prArgs, tnodes, tdepth, tmax, tmapOf, jlen)
   let R := captured(callback, r)
   let B := RepBuf(captured(callback, r))
   ensures @fails-on-malformed [C09] result == nil ==> (forall i int :: {RdLine(rd, i)} 0 <= i && i < RdN(rd) ==> !Malformed(rd, i, cc))
@@ -292,7 +292,7 @@ func ParseStreamCallback variant lint
   bind callback = lint.Lint$1
   props C08 C09 C10
   let out := payload(captured(callback, lc).ReporterConfig.Output)
-  modifies captured(callback, errorsFound)
+  modifies captured(callback, errorsFound), captured(callback, writeErr)
   modifies ghost(cbLen, cbErr, cbNode, cbStop, cbRet, cbLineNo, cbLine, cbHeader, cbElems, cbNElems, scRd, scPos, privLo, evOf, prOf, evOfPr, bufSticky, sinkFailed, sinkPend, prLen, prSink, prArg, prArgs)
   ensures @lc [C09] captured(callback, lc) == old(captured(callback, lc))
   ensures @printed-once [C09] forall j int :: {cbErr[j]} old(cbLen) <= j && j < cbLen && cbErr[j] != nil ==> old(prLen) <= prOf[j] && prOf[j] < prLen && prArg[prOf[j]] == cbErr[j] && prSink[prOf[j]] == out && evOfPr[prOf[j]] == j
@@ -301,7 +301,9 @@ func ParseStreamCallback variant lint
   ensures @never-stopped [C09] (result != nil ==> RdFailed(rd)) && (forall j int :: {cbStop[j]} old(cbLen) <= j && j < cbLen ==> !cbStop[j])
   ensures @counted [C09] captured(callback, errorsFound) - old(captured(callback, errorsFound)) == prLen - old(prLen) && prLen >= old(prLen)
   ensures @old-prints forall k int :: {prArg[k]} 0 <= k && k < old(prLen) ==> prArg[k] == old(prArg[k])
+  ensures @remembers-loss [C17] old(captured(callback, writeErr)) == nil && captured(callback, writeErr) == nil ==> sinkFailed[out] == old(sinkFailed[out])
   loop 1 {
+    invariant @remembers-loss old(captured(callback, writeErr)) == nil && captured(callback, writeErr) == nil ==> sinkFailed[out] == old(sinkFailed[out])
     invariant @lc captured(callback, lc) == old(captured(callback, lc)) && prLen >= old(prLen)
     invariant @counted captured(callback, errorsFound) - old(captured(callback, errorsFound)) == prLen - old(prLen)
     invariant @printed-once forall j int :: {cbErr[j]} old(cbLen) <= j && j < cbLen && cbErr[j] != nil ==> old(prLen) <= prOf[j] && prOf[j] < prLen && prArg[prOf[j]] == cbErr[j] && prSink[prOf[j]] == out && evOfPr[prOf[j]] == j
